@@ -16,7 +16,7 @@ var (
 	verbPool   = []string{":go", ":undo"}
 	methodPool = []string{"GET", "POST", "PUT", "DELETE", "PATCH"}
 	mimePool   = []string{"application/json", "application/xml", "text/plain"}
-	valuePool  = []string{"1", "42", "abc", "a1", "x.y", "A", "AB", "a.f", "a.txt", "7:go", "q", "a", "b", "users", "12", "AB1", "é", "a b", "{x}", "a:undo", "zz-x", "%41"}
+	valuePool  = []string{"1", "42", "abc", "a1", "x.y", "A", "AB", "a.f", "a.txt", "7:go", "q", "a", "b", "users", "12", "AB1", "é", "a b", "{x}", "a:undo", "zz-x", "%41", ".", "..", "ago", "1:xgo", "undo"}
 	acceptPool = []string{"", "", "*/*", "application/json", "application/xml", "text/plain", "application/json;q=0.5, application/xml",
 		"text/*", "application/*", "application/json;q=0", " application/xml ", "text/html, */*;q=0.1", "text/html", "application/json , text/html",
 		"application/xml;q=0.1,application/json", "garbage", "*/* ; q=0.8"}
@@ -216,6 +216,9 @@ func randomTable(r *rand.Rand, profile string, nreq int) tableCase {
 			if profile == "common" && r.Intn(2) == 0 {
 				rs.M = []string{"GET", "POST"}[r.Intn(2)]
 			}
+			if r.Intn(14) == 0 {
+				rs.M = pick(r, []string{"TRACE", "PROPFIND", "REPORT"}) // methods outside the usual seven
+			}
 			hp := 70
 			if profile == "headers" {
 				hp = 20
@@ -295,7 +298,15 @@ func mutateSegs(r *rand.Rand, segs []string) []string {
 		return []string{pick(r, valuePool)}
 	}
 	k := r.Intn(len(segs))
-	switch r.Intn(12) {
+	switch r.Intn(14) {
+	case 12: // drop the last colon (same letters, no verb separator)
+		if i := strings.LastIndex(segs[k], ":"); i >= 0 {
+			segs[k] = segs[k][:i] + segs[k][i+1:]
+		}
+	case 13: // lengthen the verb
+		if i := strings.LastIndex(segs[k], ":"); i >= 0 {
+			segs[k] = segs[k][:i+1] + "x" + segs[k][i+1:]
+		}
 	case 0: // drop
 		segs = append(segs[:k], segs[k+1:]...)
 	case 1: // insert
